@@ -17,13 +17,20 @@ type c06Case struct {
 	X    float64 `json:"x"`
 	X2   float64 `json:"x2"` // second abscissa, >= X, for the monotonicity pair
 	Kind string  `json:"kind"`
+	Prior []float64 `json:"prior_shapes,omitempty"` // history: shapes evaluated (at the same x) before this call; they may lie outside [0.5, 5000]
 }
 
 func checkC06(c c06Case) (Outcome, error) {
 	a := float64(c.TwoA) / 2
 	tol := 1e-12 + 1e-14*a
+	for _, pa := range c.Prior {
+		_ = rn.Igamc(pa, c.X) // any earlier call is legal API use and must not influence later results
+	}
 	got := rn.Igamc(a, c.X)
 	cls := []string{"x:" + c.Kind}
+	if len(c.Prior) > 0 {
+		cls = append(cls, "after-prior-calls")
+	}
 	switch {
 	case a <= 5:
 		cls = append(cls, "a<=5")
@@ -130,6 +137,16 @@ func genC06(t *rapid.T) c06Case {
 		x = 20*a + 200
 	}
 	c := c06Case{TwoA: twoA, X: x, Kind: kind}
+	if rapid.IntRange(0, 2).Draw(t, "history") == 0 {
+		// earlier calls with other shapes, at power-of-two strides from a (where table-indexed caches collide) and beyond the stated range
+		for k := rapid.IntRange(1, 3).Draw(t, "priors"); k > 0; k-- {
+			stride := float64(int(1) << uint(rapid.IntRange(6, 17).Draw(t, "stride_exp")))
+			if rapid.Bool().Draw(t, "half") {
+				stride /= 2
+			}
+			c.Prior = append(c.Prior, a+stride*float64(rapid.IntRange(1, 3).Draw(t, "mult")))
+		}
+	}
 	// second abscissa: a neighbour (a few ulps up to a relative 1e-3) or a far point
 	switch rapid.IntRange(0, 2).Draw(t, "pair") {
 	case 0:
